@@ -196,7 +196,7 @@ def put(self, packet):
 
 # ------------------------------------------------------------------ virtual_clock.py
 
-spec('VC', '__init__')('''
+spec('VC', '__init__', what='auxVC of every class starts at the clock origin (max(now, auxVC) must select now for the first packet whatever the origin)')('''
 def __init__(self, env, rate, vticks, flow2class=lambda fid: fid, debug=False):
     super().__init__(env, rate, flow2class, debug)
     self.vticks = vticks
@@ -205,7 +205,7 @@ def __init__(self, env, rate, vticks, flow2class=lambda fid: fid, debug=False):
     self.store = PriorityStore(env)
     self.arrival_seq = 0
     for class_id in vticks.keys():
-        self.aux_vc[class_id] = 0
+        self.aux_vc[class_id] = env.now
         self.vc[class_id] = 0
     self.proc = env.process(self.run(env))
 ''')
